@@ -138,9 +138,9 @@ func closeGuard(p *Prog, fn *ssa.Function, in ssa.Instruction, ch *types.Var) st
 				lockHeld = true
 			}
 		}
-		if sel, ok := x.(*ssa.Select); ok && !sel.Blocking && instrDominates(x, in) {
-			for _, st := range sel.States {
-				if sameField(fieldOrigin(st.Chan), ch) {
+		if instrDominates(x, in) {
+			for _, f := range polledChans(x) {
+				if sameField(f, ch) {
 					chkd = true
 				}
 			}
@@ -155,12 +155,10 @@ func closeGuard(p *Prog, fn *ssa.Function, in ssa.Instruction, ch *types.Var) st
 	if lockHeld {
 		gate := ""
 		instrs(fn, func(b *ssa.BasicBlock, i int, x ssa.Instruction) {
-			sel, ok := x.(*ssa.Select)
-			if !ok || sel.Blocking || !instrDominates(x, in) {
+			if !instrDominates(x, in) {
 				return
 			}
-			for _, st := range sel.States {
-				g := fieldOrigin(st.Chan)
+			for _, g := range polledChans(x) {
 				if g == nil {
 					continue
 				}
@@ -400,11 +398,9 @@ func r15_4(c *RC) {
 					base = in
 				}
 			}
-			if sel, ok := in.(*ssa.Select); ok && !sel.Blocking {
-				for _, st := range sel.States {
-					if f := fieldOrigin(st.Chan); f != nil && f.Name() == "done" {
-						donePoll = in
-					}
+			for _, f := range polledChans(in) {
+				if f != nil && f.Name() == "done" && donePoll == nil {
+					donePoll = in
 				}
 			}
 		})
@@ -871,4 +867,52 @@ func r15_7(c *RC) {
 	} else {
 		c.Bad("close-takes-no-waiting-lock", closeFn.Pos(), "%s: Close then waits for the very call it is supposed to release, and neither returns", strings.Join(bad, "; "))
 	}
+}
+
+
+// polledChans: the channel fields an instruction polls without blocking -
+// directly (select with default) or through a small helper whose body is
+// such a poll and nothing else that blocks (func (b *T) isDone() bool).
+func polledChans(in ssa.Instruction) []*types.Var {
+	var out []*types.Var
+	switch x := in.(type) {
+	case *ssa.Select:
+		if !x.Blocking {
+			for _, st := range x.States {
+				if f := fieldOrigin(st.Chan); f != nil {
+					out = append(out, f)
+				}
+			}
+		}
+	case *ssa.Call:
+		sc := x.Call.StaticCallee()
+		if sc == nil || sc.Blocks == nil || len(sc.Blocks) > 8 || sc.Signature.Results().Len() != 1 {
+			return nil
+		}
+		if bt, ok := sc.Signature.Results().At(0).Type().Underlying().(*types.Basic); !ok || bt.Kind() != types.Bool {
+			return nil
+		}
+		nsel, other := 0, false
+		var fields []*types.Var
+		instrs(sc, func(_ *ssa.BasicBlock, _ int, y ssa.Instruction) {
+			switch z := y.(type) {
+			case *ssa.Select:
+				nsel++
+				if z.Blocking {
+					other = true
+				}
+				for _, st := range z.States {
+					if f := fieldOrigin(st.Chan); f != nil {
+						fields = append(fields, f)
+					}
+				}
+			case *ssa.Call, *ssa.Go, *ssa.Send, *ssa.Store:
+				other = true
+			}
+		})
+		if nsel == 1 && !other {
+			out = fields
+		}
+	}
+	return out
 }
